@@ -468,6 +468,14 @@ def run_cases(cases, out, label, stats):
                 % (tid, fails[0][0], len(item["events"]), " (pinned behaviour CancelTail=FALSE of the model)" if set(clauses) <= PINNED else ""),
             )
         )
+    if verdicts.l2:
+        # does the code behave like the repaired variant of the model (final gather inside the try block)?
+        drifted = [index[tid][1] for tid in sorted(verdicts.l2)]
+        cfg_text = open(os.path.join(tlc.SPECS, "Composite", "TraceComposite.cfg"), encoding="utf-8").read().replace("CancelTail = FALSE", "CancelTail = TRUE")
+        v2 = tracecheck.validate("Composite", "TraceComposite", "TraceComposite.cfg", drifted, name="xcomptrace2", cfg_text=cfg_text)
+        stats["drift_accepted_by_repaired_variant"] = stats.get("drift_accepted_by_repaired_variant", 0) + len(drifted) - len(v2.l2)
+        if not v2.l2:
+            out.drift.append("%s: %d runs are not behaviours of Composite.tla with CancelTail=FALSE but all of them are with CancelTail=TRUE (siblings behind a tail gather are cancelled: the repaired variant)" % (label, len(drifted)))
     for tid, lines in sorted(verdicts.l2.items()):
         case, item = index[tid]
         ln = lines[0]
